@@ -647,7 +647,8 @@ where
         // the text is the symbol's name, as if it had been written as a literal
         if self.get_symbol_string(sym)?.is_none() {
             let name = self.string_from_basic_data_at(from)?;
-            return self.parse_add_symbol(&name);
+            // the symbol is made from the text without its colons, so is its name
+            return self.parse_add_symbol(name.trim_matches(':'));
         }
         self.push_to_data_block(BasicData::Symbol(sym))
     }
